@@ -15,6 +15,42 @@ import (
 type Case struct {
 	Set []rsx.RouteSpec `json:"set"`
 	Req rsx.Req         `json:"req"`
+	// Extra, when set, is registered (first when ExtraFirst) next to Set and deleted again before
+	// the request: the registered set is Set, the tree went through an insertion and a removal.
+	Extra      string `json:"extra,omitempty"`
+	ExtraFirst bool   `json:"extra_first,omitempty"`
+}
+
+// buildAfterDelete registers set and extra, then deletes extra.
+func buildAfterDelete(set []rsx.RouteSpec, extra string, first bool) (*rsx.Env, error) {
+	e := rsx.NewEnv(rsx.Profile{})
+	e.Set = set
+	addExtra := func() error {
+		_, err := e.F.Handle("GET", extra, e.Handler(len(set)))
+		return err
+	}
+	if first {
+		if err := addExtra(); err != nil {
+			return nil, err
+		}
+	}
+	for i, s := range set {
+		rt, err := e.F.Handle(s.Method, s.Pattern, e.Handler(i), rsx.RouteOpts(i, s)...)
+		if err != nil {
+			return nil, err
+		}
+		e.Routes = append(e.Routes, rt)
+	}
+	if !first {
+		if err := addExtra(); err != nil {
+			return nil, err
+		}
+	}
+	if _, err := e.F.Delete("GET", extra); err != nil {
+		return nil, err
+	}
+	e.BuildRef()
+	return e, nil
 }
 
 // hostMatches reports whether the (stripped) request host equals the host pattern label for
@@ -220,10 +256,90 @@ func run(c *mc.Ctx, r *mc.Result) {
 	})
 }
 
+// runAfterDelete: the same obligations on routers whose tree went through the insertion and the
+// removal of one more route (node splits and merges in the hostname tree).
+func runAfterDelete(c *mc.Ctx, r *mc.Result) {
+	pats := patterns()
+	var extras []string
+	hostLen := 4
+	orders := []bool{false, true}
+	if c.Quick() {
+		hostLen = 3
+		orders = []bool{false}
+		for _, h := range []string{"a.b", "b.a.b", "{h}.b", "a.{t}", "a{m}.b", "{h}.{t}", "1.{t}"} {
+			extras = append(extras, h+"/a", h+"/{p0}")
+		}
+		extras = append(extras, "/a")
+	} else {
+		extras = pats
+	}
+	hosts := append(allHosts(hostLen), structured...)
+	paths := rsx.GenPaths([]string{"a", "b"}, 2)
+	r.Bounds["pool"] = fmt.Sprintf("%d patterns, subsets<=2, x %d extra patterns registered (%d positions) and deleted again, all hosts of length<=%d over {a,b,1,.} + %d structured, %d paths", len(pats), len(extras), len(orders), hostLen, len(structured), len(paths))
+	stopped := false
+	n := 0
+	rsx.Subsets(len(pats), 2, func(i int, idx []int) {
+		if stopped {
+			return
+		}
+		set := make([]rsx.RouteSpec, 0, len(idx))
+		for _, j := range idx {
+			set = append(set, rsx.RouteSpec{Method: "GET", Pattern: pats[j]})
+		}
+		for _, extra := range extras {
+			for _, first := range orders {
+				n++
+				if !c.Mine(n) {
+					continue
+				}
+				if n&63 == 0 && c.Expired() {
+					stopped = true
+					r.NotExhaustive = append(r.NotExhaustive, fmt.Sprintf("time guard hit at case #%d", n))
+					return
+				}
+				e, err := buildAfterDelete(set, extra, first)
+				if err != nil {
+					r.Count("histories_rejected_by_router", 1)
+					continue
+				}
+				r.States++
+				for _, h := range hosts {
+					for _, p := range paths {
+						rq := rsx.Req{Method: "GET", Host: h, Path: p}
+						abst, nontriv, class, msg := eval(e, rq)
+						r.Evaluations++
+						r.Transitions++
+						if abst {
+							r.Abstained++
+						}
+						if nontriv {
+							r.DistinctNontrivial++
+						}
+						if class != "" {
+							r.Violate("hosts-after-delete", class, fmt.Sprintf("[after Handle(%s) and Delete(%s), extra first=%v] ", extra, extra, first)+msg, Case{Set: set, Req: rq, Extra: extra, ExtraFirst: first})
+						}
+					}
+				}
+			}
+		}
+	})
+}
+
 func replay(c *mc.Ctx, raw json.RawMessage) string {
 	var cs Case
 	if err := json.Unmarshal(raw, &cs); err != nil {
 		return "bad case: " + err.Error()
+	}
+	if cs.Extra != "" {
+		e, err := buildAfterDelete(cs.Set, cs.Extra, cs.ExtraFirst)
+		if err != nil {
+			return ""
+		}
+		_, _, _, msg := eval(e, cs.Req)
+		if msg != "" {
+			msg = fmt.Sprintf("[after Handle(%s) and Delete(%s), extra first=%v] ", cs.Extra, cs.Extra, cs.ExtraFirst) + msg
+		}
+		return msg
 	}
 	e, err := rsx.Build(cs.Set, rsx.Profile{})
 	if err != nil {
@@ -237,12 +353,12 @@ func init() {
 	mc.Register(&mc.Check{
 		ID:    "C09",
 		Level: "exploration",
-		Rule: "every subset (size<=K) of a 35-pattern pool mixing hostname and path-only patterns x every Host string up to a length over {a,b,1,.} plus structured variants (port, trailing dot, IPv4/IPv6 literals, empty, garbage) x paths of depth<=2; " +
+		Rule: "every subset (size<=K) of a 35-pattern pool mixing hostname and path-only patterns x every Host string up to a length over {a,b,1,.} plus structured variants (port, trailing dot, IPv4/IPv6 literals, empty, garbage) x paths of depth<=2; the same on routers that additionally went through the registration and deletion of one more pattern (part hosts-after-delete); " +
 			"non-trivial = the method has hostname routes and the host equals a hostname pattern or contains its distinguishing label",
 		Assumptions: []string{
 			"host normalisation reference: net.SplitHostPort when a ':' is present (unchanged on error), then one trailing dot removed",
 			"obligations are host-only: whole-host equality of any selected hostname route, value round trip, exact path-only answer when no hostname route can be involved, reference direct match under a matching host (direct matching itself is validated by C01)",
 		},
-		Parts: []mc.Part{{Name: "hosts", Run: run, Replay: replay}},
+		Parts: []mc.Part{{Name: "hosts", Run: run, Replay: replay}, {Name: "hosts-after-delete", Run: runAfterDelete, Replay: replay}},
 	})
 }
